@@ -87,7 +87,13 @@ func raceScenario(p raceParams) func() {
 			run("call", call("QuorumCall", 0, false))
 		case "and-shared":
 			// two goroutines derive configurations from one operand that has spare capacity
-			base, err := w.Mgr.NewConfiguration(w.Spec, gorums.WithNodeIDs([]uint32{1}))
+			// (a union of overlapping operands, or a list with a repeated address, leaves the result with spare capacity)
+			one, err := w.Mgr.NewConfiguration(w.Spec, gorums.WithNodeIDs([]uint32{1}))
+			if err != nil {
+				mc.Fail("setup", "%v", err)
+				return
+			}
+			base, err := w.Mgr.NewConfiguration(w.Spec, one.And(one))
 			if err != nil {
 				mc.Fail("setup", "%v", err)
 				return
@@ -96,6 +102,13 @@ func raceScenario(p raceParams) func() {
 			run("and1", func() { w.Mgr.NewConfiguration(w.Spec, base.And(other)) })
 			run("and2", func() { w.Mgr.NewConfiguration(w.Spec, base.And(other)) })
 			run("except", func() { w.Mgr.NewConfiguration(w.Spec, w.Cfg.Except(other)) })
+		case "close-vs-new-configuration":
+			// Close while another goroutine creates a configuration that adds a node to the pool
+			run("a", call("QuorumCall", 0, false))
+			run("cfg", func() {
+				w.Mgr.NewConfiguration(w.Spec, w.Cfg.WithNewNodes(gorums.WithNodeList([]string{"127.0.0.1:9100"})))
+			})
+			run("close", func() { w.Mgr.Close() })
 		case "restart":
 			run("a", call("QuorumCall", 0, false))
 			run("b", call("GRPCCall", 2, false))
@@ -206,7 +219,7 @@ func raceScenario(p raceParams) func() {
 func raceInstances(tier string) []Instance {
 	var out []Instance
 	for _, wl := range []string{"calls", "calls-cancel", "config-vs-nodes", "and-shared", "restart", "close", "down-close", "server-streams",
-		"correctable-observers", "async-observers", "pernode-custom", "reset-lasterr", "addnodes-during-calls", "blocked-send-cancel-reset"} {
+		"correctable-observers", "async-observers", "pernode-custom", "reset-lasterr", "addnodes-during-calls", "blocked-send-cancel-reset", "close-vs-new-configuration"} {
 		for _, buf := range []uint{0, 1} {
 			if buf == 1 && !thorough(tier) && wl != "close" && wl != "calls" {
 				continue
@@ -245,7 +258,7 @@ func raceInstances(tier string) []Instance {
 
 func init() {
 	register(&Check{ID: "C15",
-		Rule:        "14 concurrent workloads over one manager (all call types from three goroutines; calls with concurrent cancellations; configuration creation that re-sorts the node pool concurrently with Nodes/NodeIDs/Size and calls; And/Except from two goroutines on shared operands; crash+restart during traffic; Close during traffic with LastErr/Latency readers; Close racing with the sender's re-dial of a down node; released server handlers streaming concurrently; several observers of one correctable / one future; per-node + custom-type variants; stream reset with LastErr readers; WithNewNodes during calls; context end and stream reset while a send is blocked on a full transport window) x send buffer {0,1}, explored under the -race build within the deviation bound; plus every scheduled scenario of the checks C03-C12 and C18 (their faults, cancellations, Close calls, gated handlers) re-run under the -race build with the default schedule and all free choices (thorough: 1 deviation); ThreadSanitizer observes every schedule with the scheduler's hand-offs hidden (RaceDisable) and the modelled primitives' happens-before edges announced (RaceAcquire/RaceRelease); oracle: no race report whose two stacks both contain a frame of the library or its generated code; an outcome is the instance (plus each distinct report signature)",
+		Rule:        "15 concurrent workloads over one manager (all call types from three goroutines; calls with concurrent cancellations; configuration creation that re-sorts the node pool concurrently with Nodes/NodeIDs/Size and calls; And/Except from two goroutines on shared operands; crash+restart during traffic; Close during traffic with LastErr/Latency readers; Close racing with the sender's re-dial of a down node; released server handlers streaming concurrently; several observers of one correctable / one future; per-node + custom-type variants; stream reset with LastErr readers; WithNewNodes during calls; context end and stream reset while a send is blocked on a full transport window; Close while another goroutine creates a configuration that adds a node) x send buffer {0,1}, explored under the -race build within the deviation bound; plus every scheduled scenario of the checks C03-C12 and C18 (their faults, cancellations, Close calls, gated handlers) re-run under the -race build with the default schedule and all free choices (thorough: 1 deviation); ThreadSanitizer observes every schedule with the scheduler's hand-offs hidden (RaceDisable) and the modelled primitives' happens-before edges announced (RaceAcquire/RaceRelease); oracle: no race report whose two stacks both contain a frame of the library or its generated code; an outcome is the instance (plus each distinct report signature)",
 		Gen:         raceInstances,
 		Assumptions: []string{"interleaving happens at visible operations; the race detector sees the accesses between them on every explored schedule", "TSan keeps a bounded access history per memory cell", "reports with no library frame on one side (harness bookkeeping) are not counted"},
 	})
